@@ -76,3 +76,11 @@ LEMMAS += [Lemma('listlib:index_of_store_keeps_present_keys:base', [], z3.Implie
            Lemma('listlib:index_of_new_key_at_end:step', [z3.Implies(index_of(t, x) == length(t), index_of(assoc_set(t, x, y), x) == length(t)), length(t) >= 0,
                                                           index_of(t, x) >= 0, index_of(t, x) <= length(t)],
                  z3.Implies(index_of(VL.cons(h, t), x) == length(VL.cons(h, t)), index_of(assoc_set(VL.cons(h, t), x, y), x) == length(VL.cons(h, t))), property_ids=('C04',))]
+
+LEMMAS += [Lemma('listlib:length_assoc_set:base', [], length(assoc_set(VL.nil, x, y)) == z3.If(index_of(VL.nil, x) == length(VL.nil), length(VL.nil) + 1, length(VL.nil)), property_ids=('C04',)),
+           Lemma('listlib:length_assoc_set:step', [length(assoc_set(t, x, y)) == z3.If(index_of(t, x) == length(t), length(t) + 1, length(t)), length(t) >= 0, index_of(t, x) >= 0, index_of(t, x) <= length(t)],
+                 length(assoc_set(VL.cons(h, t), x, y)) == z3.If(index_of(VL.cons(h, t), x) == length(VL.cons(h, t)), length(VL.cons(h, t)) + 1, length(VL.cons(h, t))), property_ids=('C04',)),
+           Lemma('listlib:index_of_absent_stays_absent:base', [], z3.Implies(z3.And(kk != x, index_of(VL.nil, kk) == length(VL.nil)), index_of(assoc_set(VL.nil, x, y), kk) == length(assoc_set(VL.nil, x, y))), property_ids=('C04',)),
+           Lemma('listlib:index_of_absent_stays_absent:step', [z3.Implies(z3.And(kk != x, index_of(t, kk) == length(t)), index_of(assoc_set(t, x, y), kk) == length(assoc_set(t, x, y))), length(t) >= 0,
+                                                               index_of(t, kk) >= 0, index_of(t, kk) <= length(t), length(assoc_set(t, x, y)) >= 0],
+                 z3.Implies(z3.And(kk != x, index_of(VL.cons(h, t), kk) == length(VL.cons(h, t))), index_of(assoc_set(VL.cons(h, t), x, y), kk) == length(assoc_set(VL.cons(h, t), x, y))), property_ids=('C04',))]
